@@ -873,6 +873,7 @@ def run(case):
         """-> (changed, model txn)"""
         txn = zone.writer()
         mt = model.begin()
+        held = []
         for op in ops:
             kind = op[0]
             n = w.name(NAMES[op[1] % len(NAMES)])
@@ -899,7 +900,9 @@ def run(case):
                 elif kind == "replace":
                     import dns.rdataset
 
-                    txn.replace(n, dns.rdataset.from_rdata(op[3], w.rds[op[2] % len(w.rds)][1]))
+                    mine = dns.rdataset.from_rdata(op[3], w.rds[op[2] % len(w.rds)][1])
+                    held.append((mine, op[2] % len(w.rds)))
+                    txn.replace(n, mine)
                 elif kind == "delete_name":
                     txn.delete(n)
                 elif kind == "delete_type":
@@ -923,6 +926,19 @@ def run(case):
             txn.commit()
         else:
             txn.rollback()
+        # the application keeps using the Rdataset objects it handed to replace(): whatever it does
+        # to them afterwards must not reach any version (checked by all_readers after the rule)
+        for mine, idx in held:
+            t0 = w.rds[idx][0]
+            other = [rd for j, (t, rd) in enumerate(w.rds) if t == t0 and j != idx]
+            try:
+                if other:
+                    mine.add(other[0], 1)
+                else:
+                    mine.clear()
+            except Exception:
+                pass
+            classes.add("caller-held-rdataset-mutated-after-" + ("commit" if commit else "rollback"))
         return changed, mt
 
     def end_reader(r, how):
@@ -1198,6 +1214,7 @@ def _require():
         "noop-call-returned": 50,
         "attack-pairs>=20": 50,
         "excluded:btree-setattr": 10,
+        "caller-held-rdataset-mutated-after-commit": 100,
         "__nontrivial__": 100,
     }
     seen = set()
